@@ -133,6 +133,33 @@ pub fn generate(seed: u64) -> Sc {
     }
 }
 
+/// alphabet of the bounded-exhaustive part: two peers, two blocks, both time-outs reachable
+pub fn alphabet() -> Vec<Op> {
+    vec![
+        Op::Insert { peer: 1, number: 5, hid: 1 },
+        Op::Insert { peer: 2, number: 5, hid: 1 },
+        Op::Insert { peer: 1, number: 6, hid: 2 },
+        Op::Insert { peer: 2, number: 6, hid: 2 },
+        Op::RemoveByBlock { number: 5, hid: 1 },
+        Op::RemoveByBlock { number: 6, hid: 2 },
+        Op::RemoveByPeer { peer: 1 },
+        Op::RemoveByPeer { peer: 2 },
+        Op::MarkSlow { tip: 4 },
+        Op::Prune { tip: 4 },
+        Op::Advance { ms: 1_501 },
+        Op::Advance { ms: 30_001 },
+    ]
+}
+
+pub fn generate_enum(index: u64) -> Sc {
+    Sc {
+        engine: ENGINE.into(),
+        seed: index,
+        t0: 1_600_000_000_000,
+        ops: crate::nth_sequence(&alphabet(), index),
+    }
+}
+
 #[derive(Default)]
 struct Model {
     states: BTreeMap<Key, (u64, u64)>, // block -> (peer, since)
